@@ -51,9 +51,8 @@ theorem xdims_eq_native_partial (c : Call) (t : List Dim) (ht : dimTuple c = .ok
   xdims_eq_native c t ht S v hv
 
 /-- the reduced dims are native's: `dim=None` → the grouper's dims, `...` → all dims, explicit → as given -/
-theorem reduced_dims_eq_native (c : Call) (t : List Dim) (ht : dimTuple c = .ok t)
-    (he : c.dim = .ellipsis → ∀ g ∈ c.groupers, g.name ∉ c.objDims ∨ g.isbin = true) : t = nativeReduced c :=
-  dimTuple_native c t ht he
+theorem reduced_dims_eq_native (c : Call) (t : List Dim) (ht : dimTuple c = .ok t) : t = nativeReduced c :=
+  dimTuple_native c t ht
 
 /-- coordinates of the result = native's: those without a reduced dim, plus the group coordinates (minus the
     un-indexed grouped dims) -/
@@ -81,7 +80,6 @@ example : Supported exDA ["a"] where
   noBroadcast := by decide +kernel
   varsNodup := by decide +kernel
   groupNamesFresh := by decide +kernel
-  ellipsisNoDimCoord := by intro h; exact absurd h (by decide)
   binsReduceGrouperDim := by decide +kernel
   shortcutOneDim := by decide +kernel
   nativeDefined := fun _ => Or.inl ⟨_, _, rfl, rfl⟩
@@ -120,13 +118,14 @@ theorem dataset_nd_grouper_counterexample :
     varDims c ["x", "y"] "v" ["x", "y", "z"] = .ok ["z", "lab"] ∧ nativeVarDims c ["x", "y", "z"] = ["lab", "z"] := by
   refine ⟨by decide +kernel, by decide +kernel⟩
 
-/-- C15-F4: `dim=...` while grouping by a dimension coordinate: flox takes that dimension out of the reduced dims
-    (then nothing of the grouper is reduced and the call degenerates to a plain reduction) -/
-theorem ellipsis_dimension_coordinate_counterexample :
+/-- former finding C15-F4 (repaired in /repo): `dim=...` while grouping by a dimension coordinate now reduces every
+    dim, as native does, and the call is no longer a plain reduction -/
+theorem ellipsis_dimension_coordinate_reduces_all :
     let c : Call := { isDataset := false, objDims := ["x", "y"], vars := [("v", ["x", "y"])], coords := [⟨"x", ["x"]⟩],
                       unindexed := [], groupers := [⟨"x", ["x"], false, "x_bins"⟩], dim := .ellipsis }
-    dimTuple c = .ok ["y"] ∧ nativeReduced c = ["x", "y"] ∧ shortcut c ["y"] = true := by
-  refine ⟨by decide +kernel, by decide +kernel, by decide +kernel⟩
+    dimTuple c = .ok ["x", "y"] ∧ nativeReduced c = ["x", "y"] ∧ shortcut c ["x", "y"] = false ∧
+      varDims c ["x", "y"] "v" ["x", "y"] = .ok (nativeVarDims c ["x", "y"]) := by
+  refine ⟨by decide +kernel, by decide +kernel, by decide +kernel, by decide +kernel⟩
 
 /-- C15-F6: a Dataset variable having some but not all of the reduced dims (no broadcast needed): apply_ufunc raises -/
 theorem missing_core_dims_counterexample :
